@@ -93,6 +93,29 @@ def check_placeholders(repo, log):
                                 'message at %s:%d' % (rel, ln))
 
 
+def run_rules(mod, run, repo):
+    """the rule module of one property on one tree, plus what holds for every property (hazards, placeholders).
+    A construct outside the interpreted fragment normally ends the analysis (exit 2); if violations that are not known
+    findings were already established on other instances, those are what is reported - the rest of the module was not
+    run, which is said in a note.  Returns True when the module ran to its end."""
+    from pmv import xlate as _x
+    _x.HAZARD_LOG[:] = []
+    _x.PLACEHOLDER_LOG[:] = []
+    complete = True
+    try:
+        mod.check(run, repo)
+    except Unsupported as e:
+        if not run.split_known()[0]:
+            raise
+        complete = False
+        run.notes.append('the analysis stopped at a construct outside the interpreted fragment (%s); the violations '
+                         'reported were established before that point, the remaining instances were not run' % e)
+    report_hazards(run, repo, _x.HAZARD_LOG)
+    if complete:
+        check_placeholders(repo, _x.PLACEHOLDER_LOG)
+    return complete
+
+
 def main(argv=None):
     ap = argparse.ArgumentParser()
     ap.add_argument('prop')
@@ -119,17 +142,12 @@ def main(argv=None):
             mod = importlib.import_module('pmv.rules.%s' % prop.lower())
         except ImportError as e:
             raise AnalysisError('no rule module for %s (%s)' % (prop, e))
-        from pmv import xlate as _x
-        _x.HAZARD_LOG[:] = []
-        _x.PLACEHOLDER_LOG[:] = []
-        mod.check(run, repo)
-        report_hazards(run, repo, _x.HAZARD_LOG)
-        check_placeholders(repo, _x.PLACEHOLDER_LOG)
+        complete = run_rules(mod, run, repo)
         # functions analysed = what the interpreter actually entered (names are not assumed, private helpers may be
         # renamed or moved without the evidence going stale)
         from pmv.xlate import VISITED
         run.fn(*sorted(VISITED))
-        if args.tier == 'thorough' and not args.no_selftest and replay is None:
+        if args.tier == 'thorough' and not args.no_selftest and replay is None and complete:
             from pmv.selftest import selftest
             selftest(run, repo, mod)
         code = run.finish(replay=replay)
